@@ -94,13 +94,19 @@ let () =
   let status = ref "" in
   let unitstat = ref [] and quiesce = ref [] and xjoin = ref [] in
   let mism = ref None in
+  (* the harness's own per-unit counters are read first: they are judged even when the replay stops early *)
+  List.iter (fun l ->
+      match words l with
+      | "STATUS" :: s :: _ -> status := s
+      | "UNITSTAT" :: i :: rest ->
+        unitstat := (int_of_string i, List.map (fun w -> match String.split_on_char '=' w with [k; v] -> (k, v) | _ -> ("", "")) rest) :: !unitstat
+      | _ -> ()) lines;
   (try
     List.iteri (fun ln l ->
       match words l with
-      | "STATUS" :: s :: _ -> status := s
+      | "STATUS" :: _ -> ()
       | "THR" :: _ -> ()
-      | "UNITSTAT" :: i :: rest ->
-        unitstat := (int_of_string i, List.map (fun w -> match String.split_on_char '=' w with [k; v] -> (k, v) | _ -> ("", "")) rest) :: !unitstat
+      | "UNITSTAT" :: _ -> ()
       | actor :: kind :: f ->
         let aptr = (match String.split_on_char '@' actor with [_; p] -> hex p | _ -> 0) in
         let desc = kind ^ " " ^ String.concat " " f in
@@ -275,6 +281,7 @@ let () =
       if g "created" = 1 then begin
         if g "entries" > 1 + g "revives" then bad := Printf.sprintf "unit%d:started-%d-times" i (g "entries") :: !bad;
         if g "finished" > g "entries" then bad := Printf.sprintf "unit%d:finished-more-than-started" i :: !bad;
+        if g "lost" <> 0 then bad := Printf.sprintf "unit%d:%d-incarnation(s)-not-cancelled-yet-function-not-run-exactly-once" i (g "lost") :: !bad;
         if g "badarg" <> 0 then bad := Printf.sprintf "unit%d:wrong-argument" i :: !bad
       end) !unitstat;
   List.iter (fun (k, sz, tot) -> if k >= 1 && sz <> tot then
